@@ -199,3 +199,9 @@ def deliveries(rows):
         elif r[0] in (5, 8, 9):
             other.append(r)
     return msgs, other
+
+
+def opaque_summary(rows):
+    """same summary as eng_model computes for opaque (CURVE/NOISE) configurations"""
+    return [[sum(1 for r in rows if r and r[0] == 5), sum(1 for r in rows if r and r[0] == 6),
+             sum(1 for r in rows if r and r[0] == 9), 1 if rows[-1][1] == 4 else 0]]
